@@ -2,7 +2,7 @@
 # usage: selftest_mut.sh <prop> <file> <sed-expr> [check args]   -- run a check against a mutated scratch copy of /repo
 set -e
 prop=$1; file=$2; expr=$3; shift 3
-S=/var/tmp/verif-mut-$$
+S=${VERIF_MUT_DIR:-/var/tmp/verif-mut}-$$
 rm -rf $S; mkdir -p $S; rsync -a --exclude .git /repo/ $S/
 sed -i "$expr" $S/$file
 if diff -q /repo/$file $S/$file >/dev/null; then echo "MUTATION DID NOT APPLY"; rm -rf $S; exit 9; fi
